@@ -215,6 +215,13 @@ func extractThes(seg segment.Segment, name string) (*CThes, error) {
 			return nil, fmt.Errorf("thesaurus %q term %q: %v", name, k, err)
 		}
 		ct.Pairs[k] = pairs
+		// Contains agrees with the key iteration
+		if ok, err := th.Contains([]byte(k)); err != nil || !ok {
+			return nil, fmt.Errorf("thesaurus %q: key %q is iterated but Contains says %v (err %v)", name, k, ok, err)
+		}
+	}
+	if ok, err := th.Contains([]byte("\x01no-such-key")); err != nil || ok {
+		return nil, fmt.Errorf("thesaurus %q: Contains of an absent key says %v (err %v)", name, ok, err)
 	}
 	return ct, nil
 }
